@@ -212,6 +212,10 @@ class BF:
             return None
         t = p
         ck = callee_skey(t) or ""
+        base_names = tuple(n for n in names if not str(n).startswith("as:"))
+        if base_names == ("0",) and re.search(r"(^|::)checked_sub$", ck) and len(t["args"]) == 2:
+            # the payload of `x.checked_sub(y)` (reached only where it is Some) is x - y
+            return self.mk_sub(self.op_term(t["args"][0], depth + 1), self.op_term(t["args"][1], depth + 1))
         if not names:
             if LEN_CALL.search(ck) and t["args"]:
                 r_ = ("len", self.root(t["args"][0]))
@@ -475,7 +479,11 @@ class BF:
             if g is not None:
                 succ_label, tcall = g
                 if lab == succ_label:
-                    out.append((self.op_term(tcall["args"][1]), "<", ("len", self.root(tcall["args"][0]))))
+                    if self.CHECKED_SUB.search(callee_skey(tcall) or ""):
+                        # `x.checked_sub(y)` answered Some: y <= x
+                        out.append((self.op_term(tcall["args"][1]), "<=", self.op_term(tcall["args"][0])))
+                    else:
+                        out.append((self.op_term(tcall["args"][1]), "<", ("len", self.root(tcall["args"][0]))))
                     return out
         # call-valued conditions: is_empty(), Option discriminants of position()/checked ops are handled by value facts
         if d[0] == "pl":
@@ -494,6 +502,7 @@ class BF:
         return out
 
     GET_CALL = re.compile(r"^core::slice::get$")
+    CHECKED_SUB = re.compile(r"(^|::)checked_sub$")
     CHAIN = re.compile(r"^(core::option::Option::(ok_or|ok_or_else|copied|cloned|map|filter|as_ref)|core::result::Result::(map|map_err|as_ref)|"
                        r"<core::(option::Option|result::Result) as core::ops::try_trait::Try>::branch)$")
 
@@ -517,7 +526,8 @@ class BF:
                     continue
                 return None
             ck = callee_skey(p) or ""
-            if self.GET_CALL.search(ck) and len(p["args"]) == 2 and self._op_ty(p["args"][1]) == "usize":
+            if (self.GET_CALL.search(ck) or self.CHECKED_SUB.search(ck)) and len(p["args"]) == 2 and \
+                    (self.CHECKED_SUB.search(ck) or self._op_ty(p["args"][1]) == "usize"):
                 if ty0.startswith("core::option::Option"):
                     return ("sw:1", p)
                 if ty0.startswith("core::result::Result") or ty0.startswith("core::ops::control_flow::ControlFlow"):
